@@ -209,7 +209,7 @@ theorem mapSliceFind_nonrigid {i : GoVal} (hi : rigidHead i = false) (hd : noDro
     · exact mapSliceFind_nonrigid hi hd r
     · exact mapSliceFind_nonrigid hi hd r
 
-theorem indexValue_nonrigid {u i : GoVal} (hu : Unw u) (hi : rigidHead i = false) (hd : Unw i) :
+theorem indexValue_nonrigid {u i : GoVal} (_hu : Unw u) (hi : rigidHead i = false) (hd : Unw i) :
     indexValue u i = indexValue u canonIdx := by
   have hnd := hd.noDrop
   unfold indexValue
